@@ -146,6 +146,9 @@ def elementwise(pool, tier):
         for op in ("+", "-", "*", "/"):
             for other in (v3, w3, ("c", 2), arr(3), ("vbin", "+", w3, ("c", 1)), node):
                 yield ("vbin", op, node, other)
+            # ... and as the RIGHT operand of a vector (sizes 3 = fits, 4 = must be rejected)
+            for other in (v3, w3, ("vbin", "+", w3, ("c", 1)), vec(4), ("slice", vec(4), 1, None, None)):
+                yield ("vbin", op, other, node)
                 yield ("vbin", op, other, node) if other[0] != "c" else ("rvbin", op, other, node)
 
 
@@ -376,7 +379,7 @@ def explore(item, tier, seed):
 
 
 def _elementwise_operand(r):
-    """(outer head, node) when an ElementwisePower / ElementwiseUnary node (v**k, f(v) over a plain vector
+    """(outer head, node, position) when an ElementwisePower / ElementwiseUnary node (v**k, f(v) over a plain vector
     variable or view) is used as an operand of another vector-level operation."""
     from optyx.core.vectors import ElementwisePower, ElementwiseUnary
     from mc.minimise import _is_recipe
@@ -387,7 +390,7 @@ def _elementwise_operand(r):
         if x[0] in ("vpow", "vun") or (x[0] == "vbin" and x[1] == "**"):
             try:
                 if isinstance(Builder().build(x), (ElementwisePower, ElementwiseUnary)):
-                    return r[0], x
+                    return r[0], x, r.index(x)
             except Exception:
                 pass
         sub = _elementwise_operand(x)
@@ -417,7 +420,10 @@ def culprit(v):
     rmin = minimise(r, lambda c_: bool(check_recipe(c_, "quick", 0, None, want=kind)))
     ew = _elementwise_operand(rmin)
     if ew:
-        return {"kind": "elementwise-node-used-as-operand", "outer": ew[0], "node": ew[1][0] if ew[1][0] != "vbin" else "vpow"}
+        c = {"kind": "elementwise-node-used-as-operand", "outer": ew[0], "node": ew[1][0] if ew[1][0] != "vbin" else "vpow"}
+        if ew[0] == "vbin" and ew[2] == 3 and _elementwise_operand(("x", rmin[2])) is None and rmin[2][0] not in ("vpow", "vun"):
+            c["position"] = "right-operand-of-a-vector"     # works on the pinned tree (dedicated branch): never a known finding
+        return c
     return {"kind": kind, "recipe": rmin}
 
 
